@@ -253,6 +253,11 @@ def judge(W, run, trace):
                              "group": "formula:reuse:" + ev[3], "kind": "foreign_atoms" if out["after"].get("foreign") else "value_changed",
                              "event": i, "expected": out["before"], "observed": out["after"]})
         elif k == "formula_reuse":
+            if isinstance(out, dict) and ev[4] is None and ev[1] != "public" and out.get("kept") is False \
+                    and not out["before"].get("foreign"):
+                viol.append({"oracle": "O4", "role": "private", "group": "formula:reuse:" + ev[3],
+                             "kind": "moved_to_another_table_unasked", "event": i,
+                             "expected": {"kept": True}, "observed": out})
             if isinstance(out, dict) and not out["before"].get("foreign") and out["after"].get("foreign"):
                 viol.append({"oracle": "O4", "role": "private" if ev[1] != "public" else "public",
                              "group": "formula:reuse:" + ev[3], "kind": "foreign_atoms", "event": i,
